@@ -6,6 +6,10 @@ HERE = os.path.dirname(os.path.dirname(os.path.abspath(__file__)))
 TECH = "bounded symbolic execution of rustc MIR (own MIR->SMT encoder 'mirsym'), z3 decides every path obligation; counterexamples replayed natively"
 
 CHECKS = {
+    'C01': dict(
+        text="Solver-decided within bounds, mechanism level, not a proof and NOT the end-to-end statement (the tree comparison needs the Typst parser on whole outputs). Token conservation per construct: for every expression kind, concrete node shapes from real parses (all repository fixtures + a hand-written file of tricky constructs; ~900 shapes quick, ~2500 thorough) are rebuilt as abstract trees and PrettyPrinter::convert_expr is executed from MIR on each with the real attribute pass, nested expression/pattern/markup conversions opaque, and context (mode, break suppression), indent unit, width and chain width symbolic. z3 decides on every path and in both observed layouts that the non-layout character stream of the produced document (everything except blanks, commas, semicolons, parentheses, braces) equals that of the source text of the node. Found a genuine defect (`a not in b == c` lost `not`), fixed.",
+        note="Trusted: mirsym encoder; typst-syntax contracts (kind tables, accessors, operator tables extracted from the real crate); Doc algebra. Shapes are sampled from real parses (the solver quantifies over contexts/configuration, not over shapes); statement boundaries, parenthesis grouping, indentation-derived nesting, width-dependent layout and import reordering (C19) are outside. Constructs in units/conserve_expected.json must stay decidable or the run is inconclusive.",
+        ref="DESIGN.md §5 C01"),
     'C11': dict(
         text="Solver-decided within bounds, not a proof: strip_trailing_whitespace (real MIR) is executed symbolically over every UTF-8 string of up to N code points (N=5 quick, 7 thorough; each code point an arbitrary Unicode scalar) and z3 shows the result is non-empty, ends in LF and no line ends in White_Space; the library entry points (real MIR, printer opaque) are shown to return exactly strip(render(..)). Longer strings and the renderer itself are outside the claim.",
         note="Trusted: mirsym encoder; contracts for str::{lines,trim_end,..} and String (validated natively each run: White_Space table over all scalars, differential runs); pretty's renderer output is treated as an arbitrary string; parser fact root=Markup.",
@@ -69,7 +73,6 @@ CHECKS = {
 }
 
 NOT_APPLICABLE = {
-    'C01': "oracle is the Typst parser over whole formatter output and the subject is the whole printer; Kani ICEs on the parser, CBMC cannot execute the printer even on concrete 3-token inputs; no encoder within reach (DESIGN §2, §8)",
     'C02': "needs the Typst compiler, layout engine and renderer (floating point, fonts, ~10^5 lines): far outside any symbolic encoder available here",
     'C17': "quantifies over thread interleavings and processes; neither the MIR encoder nor Kani models concurrency, and the relevant state (hash seeds, allocator, typst's global interner) lies outside typstyle's MIR",
     'C18': "asymptotic cost over unbounded nesting depth of the whole printer; bounded symbolic execution of single units says nothing about it and the whole printer is not encodable",
